@@ -219,6 +219,26 @@ class ExtrasMixin:
             self.run.assume(z3.Select(r.dom, kt))
             self.run.imprecise.append("min/max over symbolic dict: arbitrary element")
             return VTuple([self.wrap(r.ktype, kt), self.symdict_val(ref, r, kt)])
+        elif isinstance(args[0], VRef) and args[0].kind == "list" and not self.run.rec(args[0].oid).concrete and key is not None:
+            # min/max with a key over a symbolic list: ValueError (or the default) when empty, otherwise SOME element of the list at an arbitrary
+            # position (that it is the extremal one is not modelled: imprecise); the key is applied to it so that a raising key is seen
+            ref = args[0]
+            r = self.run.rec(ref.oid)
+            if self.run.decide(r.length <= 0, "sequence empty"):
+                if default is not None:
+                    return default
+                raise E.PyExc(VExc("ValueError"), f"{name}() of empty")
+            k = z3.Int(self.run.fresh_name(f"{r.sym}#arg{name}"))
+            self.run.assume(z3.And(k >= 0, k < r.length))
+            x = self.symlist_elem(ref, r, k)
+            self.call_value(key, [x], {})
+            if isinstance(x, VRef):
+                try:
+                    x.from_list = r.sym
+                except AttributeError:
+                    pass
+            self.run.imprecise.append(f"{name}(key=...) over a symbolic list: an arbitrary element")
+            return x
         else:
             items = self.iterate_concrete(args[0])
         if not items:
